@@ -344,6 +344,12 @@ def run(ctx):
             if tgt:
                 outside.append(f"{q_} L{n_.lineno}: {tgt[0][:60]}")
     ctx.check("R9-resumed-list-owned-by-collection", PR, not outside, "_resumed_packs is emptied or changed only by RepositoryPackCollection's own methods (which remove the packs' indices first)", construct="; ".join(outside), message=f"the list of resumed packs is changed from outside the collection ({'; '.join(outside)}): the packs were registered with add_pack_to_memory, so forgetting them without removing their indices leaves the suspended texts and signatures visible through the repository object outside any write group")
+    # ---- R10: commit and abort agree on resetting the parents provider's cache ---------------------------------------------
+    def _resets_cache(f_):
+        return any(norm(c.func) in ("self._unstacked_provider.disable_cache", "self._unstacked_provider.enable_cache") or norm(c.func).endswith("missing_keys.clear") for c in calls_in(f_))
+
+    fcm_, fab_ = repo.func(PR, "PackRepository._commit_write_group"), repo.func(PR, "PackRepository._abort_write_group")
+    ctx.check("R10-abort-resets-graph-cache", f"{PR}:PackRepository._abort_write_group", (not _resets_cache(fcm_)) or _resets_cache(fab_), "like _commit_write_group, _abort_write_group resets self._unstacked_provider (keys seen through the graph while the group was open must not outlive it)", message="PackRepository._abort_write_group leaves the parents provider's cache alone while _commit_write_group resets it: after an abort get_graph().get_parent_map() keeps reporting revisions of the aborted write group — the repository's visible revisions are not what they were before it started")
     # ---- R8: an abort forgets the resumed packs even when aborting the new pack fails ---------------------------------
     fn8, g8, w8 = fn_cfg(ctx, PR, f"{COLL}._abort_write_group")
     ab_new = need(w8, calling(g8, attr="abort", recv="self._new_pack"), "self._new_pack.abort()")
@@ -354,6 +360,7 @@ def run(ctx):
     ctx.check("R8-abort-reaches-resumed-packs", w8, bool(set(loops8) & g8.reach(xs8, include_src=True)), "when self._new_pack.abort() raises, the loop that removes the resumed packs' indices still runs", message="_abort_write_group leaves through the exception of self._new_pack.abort() without visiting the resumed packs: their indices stay in the in-memory aggregate index, abort_write_group(suppress_errors=True) hides the error, and the repository object keeps reporting the aborted revisions as present although no listed pack holds them")
 
 MUTANTS = [
+    Mutant("abort keeps the graph cache (fix 622a57d reverted)", PR, "            self._unstacked_provider.disable_cache()\n            self._unstacked_provider.enable_cache()\n\n    def _make_parents_provider", "            pass\n\n    def _make_parents_provider", expect="R10-abort-resets-graph-cache"),
     Mutant("abort stops at a failing new pack (fix 52adcff reverted)", PR, "        finally:\n            # Forget the resumed packs even if aborting the new pack failed:\n            # their indices must not stay visible after an abort.\n            for resumed_pack in self._resumed_packs:", "        except BaseException:\n            raise\n        else:\n            for resumed_pack in self._resumed_packs:", expect="R8-abort-reaches-resumed-packs"),
     Mutant("failed publication keeps the allocation", PR, "                for pack in allocated:\n                    current = self._packs_by_name.get(pack.name)\n                    if current is not None and pack.name in self._names:\n                        self._remove_pack_from_memory(current)\n                raise\n", "                raise\n", expect="R7-failed-publication-forgets-allocation"),
     Mutant("key dependencies cleared in a finally", PR, "        hint = self._pack_collection._commit_write_group()\n        self.revisions._index.clear_key_dependencies()\n", "        try:\n            hint = self._pack_collection._commit_write_group()\n        finally:\n            self.revisions._index.clear_key_dependencies()\n", expect="R6-refusal-keeps-tracking"),
